@@ -908,7 +908,16 @@ class IRSpec:
             for f_ in heap0:
                 if not s2.heap[f_].eq(heap0[f_]): raise Unsupported('loop body stores to %s: an invariant is needed' % f_)
             normals.append(list(s2.pc[base:]))
-        sub.block(s_in, node.body, body_end, lambda s2, v: (_ for _ in ()).throw(Unsupported('return inside a checking loop')), None, body_end)
+        returns = []
+        def body_ret(s2, v):
+            # an early `return <constant>`: the loop (and the function) returns that constant for the first element that gets there
+            for f_ in heap0:
+                if not s2.heap[f_].eq(heap0[f_]): raise Unsupported('loop body stores to %s before returning' % f_)
+            if v is None or (v[0] == 'ref' and v[1].eq(c.null)): key = 'None'
+            elif v[0] == 'bool' and (is_true(v[1]) or is_false(v[1])): key = 'True' if is_true(v[1]) else 'False'
+            else: raise Unsupported('return of a computed value inside a checking loop')
+            returns.append((key, v, list(s2.pc[base:])))
+        sub.block(s_in, node.body, body_end, body_ret, None, body_end)
         se.obligations += sub.obligations
         for s_, kind, _v in sub.outcomes:
             for f_ in heap0:
@@ -925,6 +934,10 @@ class IRSpec:
         for kind, conds in kinds.items():
             sE = st.fork(); sE.pc.append(quant(And(member, *facts, Or(conds)), False))
             if se.sat(sE): se.exit(sE, kind)
+        if returns:
+            if len(set(r_[0] for r_ in returns)) > 1: raise Unsupported('a checking loop that returns different constants')
+            sR = st.fork(); sR.pc.append(quant(And(member, *facts, Or([conj(r_[2]) for r_ in returns])), False))
+            if se.sat(sR): k_ret(sR, returns[0][1])
         sN = st.fork(); sN.pc.append(quant(Implies(And(member, *facts) if facts else member, self.close_fresh(ok, mark)), True))
         if se.sat(sN): nxt(sN)
 
